@@ -132,4 +132,6 @@ VARIANTS = [
          old="    cp = ContractionProcessor(inputs, output, size_dict)\n    if simplify:\n        cp.simplify()\n\n    cp.optimize_optimal(", new="    inputs = [[ix for ix in term if size_dict[ix] != 1] for term in inputs]\n    output = [ix for ix in output if size_dict[ix] != 1]\n    cp = ContractionProcessor(inputs, output, size_dict)\n    if simplify:\n        cp.simplify()\n\n    cp.optimize_optimal(", expect=("C09-OPTIONS", "inputs")),
     dict(name="twin: the network's containers are converted to tuples first", kind="twin", file=BASIC,
          old="    cp = ContractionProcessor(inputs, output, size_dict)\n    if simplify:\n        cp.simplify()\n\n    cp.optimize_optimal(", new="    inputs = tuple(map(tuple, inputs))\n    output = tuple(output)\n    cp = ContractionProcessor(inputs, output, size_dict)\n    if simplify:\n        cp.simplify()\n\n    cp.optimize_optimal("),
+    dict(name="the DP keeps the first tree it finds for a subgraph", kind="break", file=BASIC,
+         old="                        if (current is None) or (new_score < current[1]):\n", new="                        if current is None:\n", expect=("C09-OPTIMALEVAL", "optimize_optimal_connected")),
 ]
